@@ -15,8 +15,9 @@ from mc.ref.calendar import RefCalendar
 
 TOGGLES = [
     "res15", "res10", "eff03", "eff15", "wkend", "leave", "vac", "limr", "limg", "limt", "gap", "prio", "alapE", "pin",
-    "sc3", "sub", "month", "tz", "hours", "long", "r5", "deep",
+    "sc3", "sub", "month", "tz", "hours", "long", "r5", "deep", "dst", "rev",
 ]
+FIRST = ("month", "dst")   # toggles that move the window: applied first, dated attributes follow the window
 
 
 def base(n):
@@ -69,6 +70,11 @@ def _task(spec, fid):
     return next(t for f, t, _p in walk_tasks(spec["tasks"]) if f == fid)
 
 
+def _day(spec, n, suffix=""):
+    from datetime import datetime, timedelta
+    return (datetime.strptime(spec["start"], "%Y-%m-%d") + timedelta(days=n)).strftime("%Y-%m-%d") + suffix
+
+
 def apply(spec, tg, n):
     if tg == "res15":
         spec["res_min"] = 15
@@ -80,11 +86,14 @@ def apply(spec, tg, n):
         _res(spec, "r2")["eff"] = 1.5
     elif tg == "wkend":
         spec.setdefault("shifts", []).append({"id": "wk", "hours": [("sat - sun", ["10:00 - 14:00"])]})
-        _res(spec, "r3")["shift"] = "wk"
+        r3 = _res(spec, "r3")
+        r3["shift"] = "wk"
+        r3.pop("hours", None)
+        r3.pop("tz", None)
     elif tg == "leave":
-        _res(spec, "r2").setdefault("leaves", []).append({"k": "leaves", "type": "annual", "a": "2024-12-30", "b": "2025-01-03"})
+        _res(spec, "r2").setdefault("leaves", []).append({"k": "leaves", "type": "annual", "a": _day(spec, 7), "b": _day(spec, 11)})
     elif tg == "vac":
-        spec.setdefault("vacations", []).append(("2025-01-01", None))
+        spec.setdefault("vacations", []).append((_day(spec, 9), None))
     elif tg == "limr":
         _res(spec, "r4")["limits"] = {"dailymax": "3h"}
     elif tg == "limg":
@@ -102,9 +111,9 @@ def apply(spec, tg, n):
         e = _task(spec, "E")
         e.pop("deps", None)
         e["sched"] = "alap"
-        e["end"] = "2025-02-07-15:00"
+        e["end"] = _day(spec, 46, "-15:00")
     elif tg == "pin":
-        _task(spec, "A")["start"] = "2025-01-02-11:00"
+        _task(spec, "A")["start"] = _day(spec, 10, "-11:00")
     elif tg == "sc3":
         spec["scenarios"] = [("plan", [("delayed", [("worse", [])])])]
         _task(spec, "B")["scen"] = [("delayed", "effort 1000min")]
@@ -126,6 +135,18 @@ def apply(spec, tg, n):
         c = _task(spec, "C")
         c["alt"] = c["alt"] + ["r5"]
         spec["tasks"].append({"id": "H", "effort": 640, "alloc": ["r5"]})
+    elif tg == "dst":
+        # the window crosses the daylight-saving switches of 2025-03-09 (New York) and 2025-03-30 (London); both zoned
+        # resources work seven days a week, so the switch nights themselves are working days
+        spec["start"] = "2025-03-03"
+        r4, r3 = _res(spec, "r4"), _res(spec, "r3")
+        r4["tz"], r4["hours"] = "America/New_York", [("mon - sun", ["9:00 - 17:00"])]
+        if not r3.get("shift"):
+            r3["tz"], r3["hours"] = "Europe/London", [("mon - sun", ["8:00 - 16:00"])]
+        _task(spec, "F")["effort"] = max(_task(spec, "F")["effort"], 9600)
+        _task(spec, "E")["effort"] = max(_task(spec, "E")["effort"], 6000)
+    elif tg == "rev":
+        spec["tasks"].reverse()   # dependents are declared before what they wait for (ties: declaration order)
     elif tg == "deep":
         # one more nesting level around F's successor chain
         spec["tasks"].append({"id": "X", "children": [{"id": "X1", "children": [{"id": "X11", "children": [
@@ -136,23 +157,9 @@ def apply(spec, tg, n):
 
 def to_spec(item):
     spec = copy.deepcopy(base(item["b"]))
-    for tg in item["t"]:
+    ts = [t for t in item["t"] if t in FIRST] + [t for t in item["t"] if t not in FIRST and t != "rev"] + [t for t in item["t"] if t == "rev"]
+    for tg in ts:
         apply(spec, tg, item["b"])
-    if "month" in item["t"]:
-        # dated attributes follow the window
-        shift = {"2024-12-30": "2025-01-27", "2025-01-03": "2025-01-31", "2025-01-01": "2025-01-29", "2025-01-02-11:00": "2025-01-30-11:00",
-                 "2025-02-07-15:00": "2025-03-07-15:00"}
-
-        def fix(o):
-            if isinstance(o, dict):
-                return {k: fix(v) for k, v in o.items()}
-            if isinstance(o, list):
-                return [fix(v) for v in o]
-            if isinstance(o, tuple):
-                return tuple(fix(v) for v in o)
-            return shift.get(o, o) if isinstance(o, str) else o
-
-        spec = fix(spec)
     return spec
 
 
@@ -161,9 +168,76 @@ def universe(tier):
     for b in (0, 1):
         for n in range(k + 1):
             for ts in itertools.combinations(TOGGLES, n):
-                if "res15" in ts and "res10" in ts:
+                if ("res15" in ts and "res10" in ts) or ("month" in ts and "dst" in ts):
                     continue
                 yield {"kind": "wide", "b": b, "t": list(ts)}
+
+
+# ---- core-dialect variant for C07 (forward, whole-slot efforts, slot-aligned gaps, no alternatives) ---------------
+
+TOGGLES7 = ["res30", "res15", "res10", "effhalf", "wkend", "leave", "vac", "limr", "limg", "limt", "gap", "prio", "pin", "month", "tz",
+            "hours", "long", "r5", "deep", "dst", "rev"]
+
+
+def to_spec7(item):
+    from mc.render import walk_tasks
+    spec = copy.deepcopy(base(item["b"]))
+    for _f, t, _p in walk_tasks(spec["tasks"]):
+        if t.get("effort"):
+            t["effort"] = max(60, int(round(t["effort"] / 60.0)) * 60)
+        t.pop("alt", None)
+    ts = [t for t in item["t"] if t in FIRST] + [t for t in item["t"] if t not in FIRST and t != "rev"] + [t for t in item["t"] if t == "rev"]
+    for tg in ts:
+        if tg == "res30":
+            spec["res_min"] = 30
+        elif tg == "effhalf":
+            for rid in ("r1", "r2", "r3", "r4"):   # every member of every team: C07 does not rank unequal efficiencies
+                _res(spec, rid)["eff"] = 0.5
+        elif tg == "gap":
+            t = _task(spec, "A.A1.A12" if item["b"] == 0 else "A.A3.A32")
+            t["deps"][0]["gap"] = "2h"
+            _task(spec, "E")["deps"][0]["gap"] = "1d"
+        elif tg == "r5":
+            spec["resources"].append({"id": "r5"})
+            spec["tasks"].append({"id": "H", "effort": 660, "alloc": ["r5"], "deps": [{"ref": "C"}]})
+        else:
+            apply(spec, tg, item["b"])
+    return spec
+
+
+def universe7(tier):
+    k = 2 if tier == "quick" else 3
+    for b in (0, 1):
+        for n in range(k + 1):
+            for ts in itertools.combinations(TOGGLES7, n):
+                if sum(t.startswith("res") for t in ts) > 1 or ("month" in ts and "dst" in ts):
+                    continue
+                yield {"kind": "wide7", "b": b, "t": list(ts)}
+
+
+# ---- bases for C09: forward projects of the wide universe x an added lowest-priority task -------------------------
+
+def universe9(tier):
+    for b in (0, 1):
+        if tier == "quick":
+            sets = [()] + [(t,) for t in TOGGLES if t != "rev"] + [(t, "rev") for t in TOGGLES if t != "rev"] + [("rev",)]
+        else:
+            sets = [ts for n in range(3) for ts in itertools.combinations(TOGGLES, n)
+                    if not (("res15" in ts and "res10" in ts) or ("month" in ts and "dst" in ts))]
+        for ts in sets:
+            for res in ("r1", "r2", "r3", "r4"):
+                for m in (30, 600):
+                    for pos in ("first", "last"):
+                        yield {"kind": "wide9", "wb": {"b": b, "t": list(ts)}, "in": {"m": m, "res": res, "pos": pos}}
+
+
+def specs9(item):
+    b = to_spec(item["wb"])
+    w = copy.deepcopy(b)
+    i = item["in"]
+    t = {"id": "zz", "effort": i["m"], "alloc": [i["res"]], "prio": 1}
+    w["tasks"].insert(0 if i["pos"] == "first" else len(w["tasks"]), t)
+    return b, w
 
 
 # ---- evaluation: one function per property --------------------------------------------------------------
@@ -248,6 +322,8 @@ def eval_c06(item):
             n += k
             vv, k = oracles.c06_milestones(spec, obs, sc)
             v += vv
+            vv, _sh = oracles.c01_ledger(obs, sc)
+            v += [("frame-overlap", d) for c, d in vv if c == "overlap"]
         return v, n
     return _wrap(item, fn)
 
@@ -296,6 +372,6 @@ def sweep(ctx, st, prop):
 
 
 NOTE = ("'wide' family: 2 ten-task base projects (3-level task and resource trees, team, alternative, milestone, container edges, "
-        "window across the year boundary) x every subset of <= 2 (thorough: <= 3) of 22 feature toggles (resolution 15/10 min, efficiency "
+        "window across the year boundary) x every subset of <= 2 (thorough: <= 3) of 24 feature toggles (resolution 15/10 min, efficiency "
         "0.3/1.5, weekend-only resource, leaves, vacation, resource/group/task limits, gaps, priorities, ALAP task, container pin, third "
-        "scenario, sub-slot efforts, month boundary, time zone, split hours, multi-week effort, fifth resource, 5-level nesting)")
+        "scenario, sub-slot efforts, month boundary, time zone, split hours, multi-week effort, fifth resource, 5-level nesting, a window across two daylight-saving switches with zoned seven-day resources, reversed declaration order)")
